@@ -193,7 +193,7 @@ class Peer:
         cuts = self.req(i).get("cuts")
         f = self.case.get("fault")
         if (f and f["kind"] == "eof_at" and f.get("glue") and f["pos"] == i + 1 and what == "ok"
-                and len(self.seen) > i + 1):
+                and len(self.seen) > i + 1 and self.req(i + 1)["reply_delay"] is not None and not self.mute):
             # clean EOF exactly on the frame boundary after reply i, delivered in the SAME callback as reply i's
             # bytes, while request i+1 is already outstanding (the reader task cannot run between the two)
             self.link.send_glued_eof(data)
